@@ -31,7 +31,7 @@ func libraryPkgs(p *load.Prog) []*packages.Package {
 }
 
 func checkC14(c *core.Ctx) {
-	c.Explainf("C14 (decided clauses: the structural ways this code could be impure or order-dependent; absence of data races as such is a dynamic notion and NOT decided). R1: every `range` over a map in the non-test code of the three library packages is enumerated and its body classified — insertion into a map/set, deletion, raising a flag and `continue` are order-independent; an `append` is accepted only if the slice is sorted afterwards in the same function; a `return`/`break` that carries a value derived from the iteration variables, or an emit, makes the result depend on map iteration order. R2: no function of the library packages assigns to, deletes from, or updates through an alias a package-level variable (the type tables are read-only). R3: Generate, which receives File by value, never appends to a slice of its receiver without first clipping its capacity (otherwise it writes into the caller's backing array — the race the property describes). R4: every pointer- or map-typed scratch field of GenerateSettings is given a fresh value in File.Generate before the first record is generated. Additionally the generator's text for one schema was folded twice by the evaluator with different map iteration orders... is NOT done: the evaluator iterates maps in sorted order, so R1 is the rule that decides order-independence.")
+	c.Explainf("C14 (decided clauses: the structural ways this code could be impure or order-dependent; absence of data races as such is a dynamic notion and NOT decided). R1: every `range` over a map in the non-test code of the three library packages is enumerated and its body classified — insertion into a map/set, deletion, raising a flag and `continue` are order-independent; an `append` is accepted only if the slice is sorted afterwards in the same function; a `return`/`break` that carries a value derived from the iteration variables, or an emit, makes the result depend on map iteration order. R2: no function of the library packages assigns to, deletes from, or updates through an alias a package-level variable (the type tables are read-only). R3: Generate, which receives File by value, never appends to a slice of its receiver without first clipping its capacity (otherwise it writes into the caller's backing array — the race the property describes). R3b: no function with a by-value File/record writes through a local alias of one of its exported slices — append onto a re-slice (the in-place filter `x := f.Consts[:0]`), element store, in-place sort, copy into — (positive control: fixtures/aliaswrite). R4: every pointer- or map-typed scratch field of GenerateSettings is given a fresh value in File.Generate before the first record is generated. Additionally the generator's text for one schema was folded twice by the evaluator with different map iteration orders... is NOT done: the evaluator iterates maps in sorted order, so R1 is the rule that decides order-independence.")
 	p := loadRepo(c)
 	if p == nil {
 		return
@@ -684,11 +684,16 @@ func scratchPerCall(c *core.Ctx, p *load.Prog) {
 				return true
 			}
 			for j, l := range as.Lhs {
-				if wire.Canon(l) == "settings."+f.Name() && assigned == 0 && j < len(as.Rhs) {
+				lsel, isSel := ast.Unparen(l).(*ast.SelectorExpr)
+				if isSel && lsel.Sel.Name == f.Name() && typeBaseName(pkg.TypesInfo.TypeOf(lsel.X)) == "GenerateSettings" && assigned == 0 && j < len(as.Rhs) {
 					assigned = as.Pos()
 					if call, ok := ast.Unparen(as.Rhs[j]).(*ast.CallExpr); ok {
 						fn := wire.Canon(call.Fun)
-						fresh = fn == "new" || fn == "make" || strings.HasPrefix(fn, "f.")
+						fresh = fn == "new" || fn == "make"
+						// a method of the receiver that builds the value
+						if sel, ok := ast.Unparen(call.Fun).(*ast.SelectorExpr); ok && typeBaseName(pkg.TypesInfo.TypeOf(sel.X)) == "File" {
+							fresh = true
+						}
 					}
 				}
 			}
